@@ -384,6 +384,7 @@ theorem solve_returnedN {S : Solver α} {st : Settings α} {r : SolveResult α} 
   unfold Solver.solve at h
   obtain ⟨L, hL, h⟩ := bind_ok_inv h
   obtain ⟨q, hq, h⟩ := bind_ok_inv h
+  obtain ⟨dN, hdN, h⟩ := bind_ok_inv h
   cases h
   unfold finish at hq
   obtain ⟨u, hu, hq⟩ := bind_ok_inv hq
